@@ -45,6 +45,18 @@ Definition filter_tokens (keep_comments : bool) (ts : list token) : list token :
 Definition lex (code : pystr) (lts : list ltok) (filter_comments : bool) : list token :=
   filter_tokens (negb filter_comments) (locate code lts).
 
+(* lex() hands the lexer the text with a final line break ensured and drops the padding from
+   the tokens again (GD24: the C-family lexers close a '//' comment only at a line break):
+   lts is the lexer's output on [pad_nl code] *)
+Definition ends_with_nl (code : pystr) : bool := match rev code with c :: _ => c =? 10 | [] => false end.
+Definition pad_nl (code : pystr) : pystr := if ends_with_nl code then code else code ++ [10].
+Definition trim_tok (n : Z) (t : ltok) : ltok :=
+  mkLtok (lt_off t) (lt_kind t) (firstn (Z.to_nat (Z.max (n - lt_off t) 0)) (lt_val t)).
+Definition trim_pad (code : pystr) (lts : list ltok) : list ltok :=
+  filter nonempty (map (trim_tok (Z.of_nat (length code))) lts).
+Definition lex_file (code : pystr) (lts : list ltok) (filter_comments : bool) : list token :=
+  lex code (trim_pad code lts) filter_comments.
+
 (* location_to_index: sum of the lengths (+1) of the lines before, plus column - 1 *)
 Fixpoint split_lines_aux (code : pystr) (cur : pystr) : list pystr :=
   match code with
